@@ -6,8 +6,9 @@ from . import _nodecommon
 
 ID = "C06"
 SUITES = ["init", "node"]
-LEAN_MODULES = ["VpnCloud.Proofs.C06"]
+LEAN_MODULES = ["VpnCloud.Proofs.C06", "VpnCloud.Proofs.C02More"]
 THEOREMS = ["VpnCloud.Proofs.C06." + n for n in ("select_spec", "selectRef_symm", "select_symm", "selectRef_perm", "plain_iff_both", "fail_iff_none_common", "selected_is_best", "selected_tiebreak")]
+THEOREMS = THEOREMS + ["VpnCloud.Proofs.C02More." + n for n in ('select_plain_iff_both', 'plain_only_if_both', 'session_plain_needs_peer_flag', 'responder_plain_needs_ping_flag', 'plain_peer_only_by_plain_handshake')]
 BATCH = 20
 SEARCH_BUDGET_S = 400
 EXPECTED_CLASSES = ["ideliver:reply", "ideliver:init", "ideliver:err:crypto", "ideliver:err:parse", "ideliver:msg"]
